@@ -3,7 +3,11 @@ session-table model (ocaml/d_sessions.ml "se"), (b) the output the model must pr
 implementation behaves like it, and (c) the verdicts of the implementation-only oracles.
 
 What is input and what is prediction
-  inputs to the model  : which datagram arrived when (X), which references were taken/dropped
+  inputs to the model  : which datagram arrived when (X) and, if the idle limit made the code
+                         evict a session, which one (the model checks that it is one the
+                         property allows: the limit is reached, idle, none older - when several
+                         are equally old the property leaves the choice open), which references
+                         were taken/dropped
                          (+/-), transmissions (T), delay-queue flag changes, when an idle scan
                          ran (P) and when the context was freed (C)
   predicted by the model: which session handles the datagram (R), SESSION_NEW/DEL events and
@@ -79,7 +83,19 @@ def translate(tokens, timeout, maxidle):
             f = t.split(":")
             if k == "X":
                 last_x = f[1]
-                w_ops.append("x:%s:%s" % (f[1], f[2]))
+                # the session evicted during this call (released before the call returns), if any:
+                # the model is told which one, and checks that the property allows it
+                victim = None
+                for t2 in evs[j + 1:]:
+                    if t2[0] == "Y":
+                        break
+                    if t2[0] == "F":
+                        victim = t2.split(":")[1]
+                        break
+                if victim is not None:
+                    w_ops.append("xv:%s:%s:%s" % (f[1], f[2], victim))
+                else:
+                    w_ops.append("x:%s:%s" % (f[1], f[2]))
             elif k == "Y":
                 if f[1] != "0":
                     expect.append("R:%s:%s" % (last_x, f[1]))
